@@ -106,9 +106,9 @@ root("byname",
 
 # 2. attribute path to a child-space reference / cells, through an (un)cached link
 root("attrpath",
-     {"spaces": {"S": {"cells": {"u": L + "T.q + x", "f": L + "u(x) + T.tc(x)"},
+     {"spaces": {"S": {"cells": {"u": L + "T.q + x", "f": L + "u(x) + 1", "g": L + "T.tc(x) + 1"},
                        "spaces": {"T": {"refs": {"q": 1}, "cells": {"tc": L + "x + q"}}}}}},
-     [q("S", "u", 0), q("S", "f", 0), q("S", "f", 1), q("S.T", "tc", 0)],
+     [q("S", "u", 0), q("S", "f", 0), q("S", "f", 1), q("S", "g", 0), q("S.T", "tc", 0)],
      [set_ref("S.T", "q", 2), del_ref("S.T", "q"), set_ref("", "q", 9), del_ref("", "q"),
       set_cached("S", "u", False), set_cached("S", "u", True),
       set_cached("S.T", "tc", False),
@@ -117,7 +117,7 @@ root("attrpath",
       rename_space("S.T", "T2"), del_space("S", "T"),
       new_space("S", "T"), set_ref("S.T", "q", 5), new_cells("S.T", "tc", L + "x + q + 500"),
       del_cells("S.T", "tc"), rename_cells("S.T", "tc", "tc2")],
-     [q("S", "f", 0), q("S", "f", 1), q("S", "u", 0)])
+     [q("S", "f", 0), q("S", "g", 0), q("S", "u", 0)])
 
 # 3. _space.r, _model.G, G by name, shadowing of a model reference by a space reference
 root("sysrefs",
@@ -164,17 +164,17 @@ root("itemspace",
      {"spaces": {"P": {"formula": "lambda i: None", "refs": {"r2": 1},
                        "cells": {"c": "lambda: tick() + i + r2", "d": L + "c() + x"}},
                  "S": {"refs": {"P": obj("P")},
-                       "cells": {"it": L + "P[x].c()", "it2": L + "P(x).d(1)"}}}},
-     [q("S", "it", 0), q("S", "it", 1), q("S", "it2", 1), q("P[1]", "c"), q("P[1]", "d", 0)],
+                       "cells": {"it": L + "P[x].c()", "it2": L + "P(x).d(1)", "ir": L + "P[x].r2"}}}},
+     [q("S", "it", 0), q("S", "it", 1), q("S", "it2", 1), q("S", "ir", 1), q("P[1]", "c"), q("P[1]", "d", 0)],
      [set_ref("P", "r2", 2), del_ref("P", "r2"), set_ref("", "r2", 4), del_ref("", "r2"),
       set_formula("P", "c", "lambda: tick() + i + r2 + 100"),
       set_param("P", "lambda i: {'refs': {'r2': 50}}"), set_param("P", "lambda i, j=3: None"),
       set_param("P", None),
-      set_cached("P", "c", False), {"op": "del_item", "sp": "P", "args": [1]},
+      set_cached("P", "c", False), set_cached("S", "ir", False), {"op": "del_item", "sp": "P", "args": [1]},
       {"op": "clear_items", "sp": "P"}, new_cells("P", "e", "lambda: tick() + 5"),
       rename_cells("P", "c", "c9"), del_cells("P", "d"), rename_space("P", "P9"),
       set_input("P", "c", [], 77), {"op": "model_clear_all"}],
-     [q("S", "it", 1), q("P[1]", "c"), q("P[1]", "d", 0), q("S", "it2", 1)])
+     [q("S", "it", 1), q("P[1]", "c"), q("P[1]", "d", 0), q("S", "it2", 1), q("S", "ir", 1)])
 
 # 7. parameter formula that itself calls a cells and returns refs
 root("paramcalls",
@@ -213,17 +213,20 @@ root("builtin",
       {"op": "set_input", "sp": "S", "c": "k", "args": [], "v": 34, "how": "attr"}],
      [q("S", "f", 0), q("S", "k")])
 
-# 10. two spaces, cells of one reads cells of the other by attribute path via a space-valued ref
+# 10. two spaces, cells of one reads a reference / a cells of the other by attribute path via a
+# space-valued reference
 root("spaceref",
      {"spaces": {"O": {"refs": {"w": 1}, "cells": {"c": L + "x + w"}},
                  "S": {"refs": {"o": obj("O")},
-                       "cells": {"g": L + "o.c(x) + o.w", "f": L + "g(x) + 1"}}}},
-     [q("S", "g", 0), q("S", "f", 0), q("S", "f", 1)],
+                       "cells": {"g": L + "o.w + x", "g2": L + "o.c(x)", "f": L + "g(x) + 1",
+                                 "f2": L + "g2(x) + 1"}}}},
+     [q("S", "g", 0), q("S", "f", 0), q("S", "f2", 0), q("S", "f2", 1)],
      [set_ref("O", "w", 2), del_ref("O", "w"), set_ref("", "w", 6), set_formula("O", "c", L + "x + w + 10"),
-      set_cached("S", "g", False), set_cached("O", "c", False), set_input("O", "c", [0], 20),
+      set_cached("S", "g", False), set_cached("S", "g2", False), set_cached("O", "c", False),
+      set_input("O", "c", [0], 20),
       rename_space("O", "O2"), del_space("", "O"), set_ref("S", "o", 3), del_ref("S", "o"),
-      new_cells("O", "w2", L + "1")],
-     [q("S", "f", 0), q("S", "g", 0)])
+      new_cells("O", "w2", L + "1"), del_cells("O", "c")],
+     [q("S", "f", 0), q("S", "f2", 0), q("S", "g", 0)])
 
 
 def root_names(tier):
